@@ -252,7 +252,12 @@ def execute(job, tier, builddir, maxw, solver, log):
             cmdr = ["goto-instrument"]
             for fn in job.remove_bodies:
                 cmdr += ["--remove-function-body", fn]
-            rc, out, err, secs, to = run(cmdr + [gb, rgb], 300)
+            rc, out, err, secs, to = run(cmdr + [gb, rgb + ".0"], 300)
+            if rc == 0:
+                # give the removed callees a body again (nondeterministic result, no side effect) so that cbmc's
+                # "no body for callee" check does not fire
+                cmdg = ["goto-instrument", "--generate-function-body", "|".join(job.remove_bodies), "--generate-function-body-options", "nondet-return", rgb + ".0", rgb]
+                rc, out, err, secs, to = run(cmdg, 300)
             if rc != 0 or not os.path.exists(rgb):
                 res["errors"].append("goto-instrument --remove-function-body failed: " + (out + err)[-2000:])
                 return None
